@@ -253,7 +253,10 @@ def check(run, prog, tier):
                f"wildcard {WILD[f]:#x} is the all-ones value of the {width.get(codes[i], '?')}-bit wire field" if ok
                else f"wire field #{i} has code {codes[i] if i < len(codes) else '?'}; wildcard {WILD[f]:#x} is not its all-ones value")
         fld = prog.lookup_field(SERVICE, f)
-        dflt = fld.default.value if fld is not None and isinstance(fld.default, ast.Constant) else None
+        dflt = None
+        if fld is not None and fld.default is not None:
+            dv = eng._eval_in_class(fld.default, SERVICE)  # a literal or a (module) constant name
+            dflt = dv[1] if is_const(dv) else None
         run.ob("W2", f"{SERVICE}:{f}-default", dflt == WILD[f], loc(prog.cls(SERVICE).methods["matches_offer"], fld.node if fld else None),
                f"default of Service.{f} is {dflt!r}; the wildcard is {WILD[f]:#x}")
 
